@@ -1,15 +1,15 @@
 (* Model/Tar.v — transcription of tarfs/fs.go and tarfs/file.go.
-   archive/tar is trusted: Next() yields the headers in order, the aentry reader yields exactly
+   archive/tar is trusted: Next() yields the headers in order, the entry reader yields exactly
    the aentry's bytes and Header.Size is their number.  bytes.Reader is modelled from its
    documentation (Read / ReadAt / Seek below).
 
    The model has a switch [legacy].  legacy = true is the code as it stands in /repo today;
    legacy = false (what the theorems are about) differs in the places marked PATCH:
      T1  fs.go Open : every handle gets its own reader position (today the copied File shares
-                      the *bytes.Reader of the stored File, so all handles of an aentry, past and
+                      the *bytes.Reader of the stored File, so all handles of an entry, past and
                       present, share one offset)
-     T2  fs.go New  : a directory aentry registers its own (possibly empty) directory map, as
-                      zipfs does (today Readdir of an empty directory aentry fails with ENOENT)
+     T2  fs.go New  : a directory entry registers its own (possibly empty) directory map, as
+                      zipfs does (today Readdir of an empty directory entry fails with ENOENT)
    Definitions only. *)
 From AF Require Import Lib.Bytes Lib.Path Lib.Ops Gen.Consts Model.ByteFile Model.Archive.
 Local Open Scope Z_scope.
@@ -18,7 +18,7 @@ Local Open Scope Z_scope.
 Definition tar_add (legacy : bool) (ix : index) (e : aentry) : index :=
   let '(d, f) := splitpath (ename e) in
   let ix1 := idx_ensure d ix in
-  let ix2 := idx_put d f e ix1 in                          (* the last aentry of a name wins *)
+  let ix2 := idx_put d f e ix1 in                          (* the last entry of a name wins *)
   if negb legacy && eisdir e then idx_ensure (join2 d f) ix2 else ix2.      (* PATCH T2 *)
 
 (* the pseudo-root: Header{Name: "/", Typeflag: TypeDir}, no bytes *)
